@@ -198,7 +198,7 @@ OPTS = {'quick': {'time_budget': 60}, 'thorough': {'time_budget': 900}}
 
 META = {
     'explanation': "C09: Table.merge (general path and _fast_merge) on a receiver in every representation state and a second operand over 7x7 "
-                   "ID-overlap/order patterns, 4 union/intersection modes, metadata on neither/either/both, default/custom/None merge functions; "
+                   "ID-overlap/order patterns (receiver ids in ascending or descending order), 4 union/intersection modes, metadata on neither/either/both operands or on one axis of the other operand only, default/custom/None merge functions; "
                    "result cell = sum of operand cells (solver), ID sets, grand total, metadata = merge function of the operands' metadata; list "
                    "form with 3 operands; fast path vs general path.",
     'encoded': {'biom/table.py': ['merge', '_fast_merge', '_union_id_order', '_intersect_id_order', '_conv_to_self_type', '_to_sparse',
